@@ -36,6 +36,12 @@ func newPool(gr *corpus.Grammar, r *prng.R, hasLexer bool) *inputPool {
 		for i := 0; i < 3; i++ {
 			p.deep = append(p.deep, gr.Derive(r.Fork("d"), 14+r.Intn(40)))
 		}
+		// a stack far beyond any plausible threshold (hundreds to thousands of entries)
+		for _, d := range []int{130, 1100 + r.Intn(1500)} {
+			if s := gr.DeriveDeep(r.Fork("vd"), d); s != nil {
+				p.deep = append(p.deep, s)
+			}
+		}
 	} else {
 		// lexer-only grammar: texts are sequences of sample lexemes
 		alpha := gr.Alphabet()
